@@ -97,7 +97,7 @@ theorem c08p_parse_number (env : Env) (henv : env.tgt = .value) (hfr : env.cfg.f
     * `PosInt(n)` — then it is an unsigned integer literal and `n < 2^64` is its exact value (C06),
     * `NegInt(k)` — then it is a negative integer literal other than `-0`, `k ≥ -2^63` its exact value,
     * `Float(b)` — then `b` is (B)'s `floatOfLiteral`, finite, and carries the literal's sign, or
-    * the error `NumberOutOfRange` — then (B) rejects the literal (`c08p_overflow_direction_partial`
+    * the error `NumberOutOfRange` — then (B) rejects the literal (`c08p_rejected_only_near_threshold`
       says when that can happen).
     Nothing else (no other error, no NaN, no infinity) is possible. -/
 theorem c08p_outcome (env : Env) (henv : env.tgt = .value) (hfr : env.cfg.fr = false)
@@ -220,60 +220,44 @@ example : (litOf exNum).sigVal < 10 ^ 15 ∧ -22 ≤ (litOf exNum).netExp ∧ (l
 /-- `-12345.678e9 = -12345678·10^6`, correctly rounded -/
 example : roundNE64 true (12345678 * 10 ^ 6) 1 = some 0xc2a674e780df0000 := by decide +kernel
 
-/-! ## Overflow direction, underflow, accuracy: the partial bounds of `Props/C08.lean`, transferred with
-the same hypotheses. They are stated at the `f64_from_parts(positive, significand, exponent)` call the
-digit collection of (B) ends in for this literal, `partsOfLiteral (litOf p) = .parts …`
-(`significand · 10^exponent` is the literal's value up to the digits dropped after `u64` overflow). -/
+/-! ## Overflow direction, underflow, accuracy — for every number literal, against its exact value
 
-/-- **C08, overflow direction at the parser (partial, as `c08_overflow_direction_partial`).**
-    If parsing a number literal fails at all, the error is `NumberOutOfRange`, and then either the
-    exponent digits overflow `i32` with a `+`/no sign and a non-zero significand
-    (`parse_exponent_overflow`), or the literal ends in `f64_from_parts(_, s, e)` with `e ≥ 0` and
-    `s·10^e ≥ 2^1024 − 2^970 − 2^972` (within 2 ulp of the rounding threshold). Conversely every such
-    call with `s·10^e ≥ 2^1024 + 2^972` is rejected. Missing, as in C08: the lift of `s·10^e` to the
-    literal's exact value when digits are dropped. -/
+`(litOf p).exact = (num, den)` is the exact value `num/den` of the literal as `Spec.Decimal` reads it
+(`c08p_literal_reading`). Side condition as in `c08p_exact_short`: the literal has fewer than `2^30`
+integer-plus-fraction digits. -/
+
+/-- **C08, "rejected only near or beyond the overflow threshold", parser level.** If parsing a number
+    literal fails at all, the error is `NumberOutOfRange` and the literal's exact value is at least
+    `2^1024 − 2^970 − 2^972` (within 2 ulp of the point from which round-to-nearest overflows). -/
+theorem c08p_rejected_only_near_threshold (env : Env) (henv : env.tgt = .value)
+    (hfr : env.cfg.fr = false) (hap : env.cfg.ap = false) (p : NumParts) (hwf : p.WF = true)
+    (hlen : (litOf p).digits.length < 2 ^ 30) (c : Code) (idx : Nat)
+    (h : parseTop env p.bytes = .err c idx) :
+    c = .NumberOutOfRange ∧ (2 ^ 1024 - 2 ^ 970 - 2 ^ 972) * (litOf p).exact.2 ≤ (litOf p).exact.1 := by
+  obtain ⟨hx, hc⟩ := Proofs.NumLinkParser.parseTop_default_err env henv hfr hap p hwf c idx h
+  exact ⟨hc, SJ.Props.C08.c08_rejected_only_near_threshold (litOf p)
+    (Proofs.NumLinkParser.litOf_wf p hwf) hlen ((Proofs.NumLink.numOfLit_none_iff _).1 hx)⟩
+
+/-- **C08, overflow direction at the parser (as `c08_overflow_direction_partial`).** Failure ⇒
+    `NumberOutOfRange` and exact value `≥ 2^1024 − 2^970 − 2^972`; exact value `≥ 2^1024 + 2^972 + 2^965` ⇒
+    `NumberOutOfRange`. Partial only where the property is false of the code: "every value ≥ 2^1024 is
+    rejected" fails on `179769313486231591e291` (finding C08-F1, example below). -/
 theorem c08p_overflow_direction_partial (env : Env) (henv : env.tgt = .value)
-    (hfr : env.cfg.fr = false) (hap : env.cfg.ap = false) (p : NumParts) (hwf : p.WF = true) :
+    (hfr : env.cfg.fr = false) (hap : env.cfg.ap = false) (p : NumParts) (hwf : p.WF = true)
+    (hlen : (litOf p).digits.length < 2 ^ 30) :
     (∀ c idx, parseTop env p.bytes = .err c idx → c = .NumberOutOfRange ∧
-      ((∃ pos, partsOfLiteral (litOf p) = .expOverflow pos false true) ∨
-       (∃ pos s e, partsOfLiteral (litOf p) = .parts pos s e ∧ 0 ≤ e ∧
-          2 ^ 1024 - 2 ^ 970 - 2 ^ 972 ≤ s * 10 ^ e.natAbs))) ∧
-    (∀ pos s e, partsOfLiteral (litOf p) = .parts pos s e → 0 ≤ e →
-      2 ^ 1024 + 2 ^ 972 ≤ s * 10 ^ e.natAbs →
-      ∃ idx, parseTop env p.bytes = .err .NumberOutOfRange idx) := by
-  have hlwf := Proofs.NumLinkParser.litOf_wf p hwf
-  have hgood := SJ.Proofs.FloatDefault.partsOfLiteral_good (litOf p) hlwf
-  constructor
-  · intro c idx h
-    obtain ⟨hx, hc⟩ := Proofs.NumLinkParser.parseTop_default_err env henv hfr hap p hwf c idx h
-    refine ⟨hc, ?_⟩
-    have hinv := Proofs.NumLink.partsOfLiteral_ne_invalid (litOf p) hlwf
-    unfold numOfLit at hx
-    cases hp : partsOfLiteral (litOf p) with
-    | invalid => exact absurd hp hinv
-    | u64 n => rw [hp] at hx; cases hx
-    | i64 n => rw [hp] at hx; cases hx
-    | negInt n => rw [hp] at hx; cases hx
-    | parts pos s e =>
-      rw [hp] at hx hgood
-      simp only [Option.map_eq_none_iff] at hx
-      obtain ⟨h1, h2⟩ := (SJ.Props.C08.c08_overflow_direction_partial pos s e hgood.2).1 hx
-      exact .inr ⟨pos, s, e, rfl, h1, h2⟩
-    | expOverflow pos z pe =>
-      rw [hp] at hx
-      simp only [Option.map_eq_none_iff, parseExponentOverflow] at hx
-      cases z <;> cases pe <;> simp at hx
-      exact .inl ⟨pos, rfl⟩
-  · intro pos s e hp he hbig
-    rw [hp] at hgood
-    have hnone := (SJ.Props.C08.c08_overflow_direction_partial pos s e hgood.2).2 he hbig
-    obtain ⟨idx, _, hi⟩ := (c08p_parse_number env henv hfr hap p hwf).2 (by
-      unfold numOfLit; rw [hp]; simp only [hnone, Option.map_none])
-    exact ⟨idx, hi⟩
+      (2 ^ 1024 - 2 ^ 970 - 2 ^ 972) * (litOf p).exact.2 ≤ (litOf p).exact.1) ∧
+    ((2 ^ 1024 + 2 ^ 972 + 2 ^ 965) * (litOf p).exact.2 ≤ (litOf p).exact.1 →
+      ∃ idx, idx ≤ p.bytes.length ∧ parseTop env p.bytes = .err .NumberOutOfRange idx) := by
+  refine ⟨fun c idx h => c08p_rejected_only_near_threshold env henv hfr hap p hwf hlen c idx h, ?_⟩
+  intro hbig
+  have hnone := (SJ.Props.C08.c08_overflow_direction_partial (litOf p)
+    (Proofs.NumLinkParser.litOf_wf p hwf) hlen).2 hbig
+  exact (c08p_parse_number env henv hfr hap p hwf).2 ((Proofs.NumLink.numOfLit_none_iff _).2 hnone)
 
-/-- `17976931348623159e292` (`> 2^1024 + 2^972`) and `1e99999999999` (eager exponent guard, reported
-    on the tenth exponent digit) are rejected; `179769313486231591e291 > 2^1024` is accepted as
-    `f64::MAX` by the parser model too (cf. `c08_accepts_above_2pow1024`) -/
+/-- `17976931348623159e292` and `1e99999999999` (eager exponent guard, reported on the tenth exponent
+    digit) are rejected; `179769313486231591e291 > 2^1024` is accepted as `f64::MAX` by the parser model
+    too (cf. `c08_accepts_above_2pow1024`) -/
 example : (parseTop envD [0x31, 0x37, 0x39, 0x37, 0x36, 0x39, 0x33, 0x31, 0x33, 0x34, 0x38, 0x36, 0x32, 0x33,
     0x31, 0x35, 0x39, 0x65, 0x32, 0x39, 0x32]).isErr .NumberOutOfRange 21 = true := by decide +kernel
 example : (parseTop envD [0x31, 0x65, 0x39, 0x39, 0x39, 0x39, 0x39, 0x39, 0x39, 0x39, 0x39, 0x39, 0x39]).isErr
@@ -281,9 +265,12 @@ example : (parseTop envD [0x31, 0x65, 0x39, 0x39, 0x39, 0x39, 0x39, 0x39, 0x39, 
 example : (parseTop envD [0x31, 0x37, 0x39, 0x37, 0x36, 0x39, 0x33, 0x31, 0x33, 0x34, 0x38, 0x36, 0x32, 0x33,
     0x31, 0x35, 0x39, 0x31, 0x65, 0x32, 0x39, 0x31]).isOk (.num (.float 0x7fefffffffffffff)) = true := by
   decide +kernel
-example : partsOfLiteral (litOf ⟨false, [0x31, 0x37, 0x39, 0x37, 0x36, 0x39, 0x33, 0x31, 0x33, 0x34, 0x38, 0x36,
-    0x32, 0x33, 0x31, 0x35, 0x39], [], [0x65, 0x32, 0x39, 0x32]⟩) = .parts true 17976931348623159 292 := by
-  decide +kernel
+/-- `1797693134862317000000000e284` as a grammar-level literal: hypotheses of the second half met -/
+def exBigNum : NumParts := ⟨false, [0x31, 0x37, 0x39, 0x37, 0x36, 0x39, 0x33, 0x31, 0x33, 0x34, 0x38, 0x36, 0x32,
+  0x33, 0x31, 0x37, 0x30, 0x30, 0x30, 0x30, 0x30, 0x30, 0x30, 0x30, 0x30], [], [0x65, 0x32, 0x38, 0x34]⟩
+example : exBigNum.WF = true ∧ litOf exBigNum = SJ.Props.C08.exBig ∧
+    (litOf exBigNum).digits.length < 2 ^ 30 := by refine ⟨by decide, rfl, by decide⟩
+example : (parseTop envD exBigNum.bytes).isErr .NumberOutOfRange 29 = true := by decide +kernel
 
 /-- **C08, zero significand at the parser.** A literal whose digit collection ends in
     `f64_from_parts(_, 0, e)` is `±0` whatever the exponent (`0e400`, `-0.000e-999`). -/
@@ -302,73 +289,92 @@ theorem c08p_zero_significand (env : Env) (henv : env.tgt = .value) (hfr : env.c
   rw [SJ.Props.C08.c08_zero_significand pos e, hpos, Bool.not_not]
   rfl
 
-/-- **C08, underflow at the parser (partial, as `c08_underflow_zero_partial`).** A literal ending in
-    `f64_from_parts(_, s, e)` with `e < 0` and `s·10^e ≤ 2^-1076` is parsed to `±0` with the literal's
-    sign; so is every literal whose negative exponent overflows `i32` (`1e-99999999999`). -/
-theorem c08p_underflow_zero_partial (env : Env) (henv : env.tgt = .value) (hfr : env.cfg.fr = false)
-    (hap : env.cfg.ap = false) (p : NumParts) (hwf : p.WF = true) :
-    (∀ pos s e, partsOfLiteral (litOf p) = .parts pos s e → e < 0 → s * 2 ^ 1076 ≤ 10 ^ e.natAbs →
-      parseTop env p.bytes = .ok (.num (.float (F64.zero p.minus)))) ∧
-    (∀ pos z, partsOfLiteral (litOf p) = .expOverflow pos z false →
-      parseTop env p.bytes = .ok (.num (.float (F64.zero p.minus)))) := by
-  have hgood := SJ.Proofs.FloatDefault.partsOfLiteral_good (litOf p)
-    (Proofs.NumLinkParser.litOf_wf p hwf)
-  constructor
-  · intro pos s e hp he hx
-    rw [hp] at hgood
-    have hpos : pos = !p.minus := hgood.1
-    apply (c08p_parse_number env henv hfr hap p hwf).1
-    unfold numOfLit
-    rw [hp]
-    simp only
-    rw [SJ.Props.C08.c08_underflow_zero_partial pos s e hgood.2 he hx, hpos, Bool.not_not]
-    rfl
-  · intro pos z hp
-    rw [hp] at hgood
-    have hpos : pos = !p.minus := hgood
-    apply (c08p_parse_number env henv hfr hap p hwf).1
-    unfold numOfLit
-    rw [hp]
-    cases z <;> simp [parseExponentOverflow, hpos]
+/-- **C08, "values below the subnormal range give ±0", parser level.** A number literal whose exact value
+    is at most `2^-1076` is accepted, and the stored number read as `f64` is `±0` with the literal's sign
+    (the integer literal `0` is stored as `PosInt(0)`, everything else — `-0`, `0.0`, `1e-400`,
+    `1e-99999999999` — as the float `±0.0`). -/
+theorem c08p_underflow_zero (env : Env) (henv : env.tgt = .value) (hfr : env.cfg.fr = false)
+    (hap : env.cfg.ap = false) (p : NumParts) (hwf : p.WF = true)
+    (hlen : (litOf p).digits.length < 2 ^ 30)
+    (hx : (litOf p).exact.1 * 2 ^ 1076 ≤ (litOf p).exact.2) :
+    ∃ x, parseTop env p.bytes = .ok (.num x) ∧ numAsF64 x = some (F64.zero p.minus) := by
+  have hfl := SJ.Props.C08.c08_underflow_zero (litOf p) (Proofs.NumLinkParser.litOf_wf p hwf) hlen hx
+  cases hn : numOfLit (litOf p) with
+  | none => rw [(Proofs.NumLink.numOfLit_none_iff _).1 hn] at hfl; cases hfl
+  | some x =>
+    refine ⟨x, (c08p_parse_number env henv hfr hap p hwf).1 x hn, ?_⟩
+    have := Proofs.NumLink.numOfLit_asF64 (litOf p)
+    rw [hn, hfl] at this
+    exact this
 
-/-- `6e-325` and `-1e-99999999999` -/
+/-- … and with a fraction or an exponent the parser stores that float -/
+theorem c08p_underflow_zero_float (env : Env) (henv : env.tgt = .value) (hfr : env.cfg.fr = false)
+    (hap : env.cfg.ap = false) (p : NumParts) (hwf : p.WF = true)
+    (hlen : (litOf p).digits.length < 2 ^ 30)
+    (hx : (litOf p).exact.1 * 2 ^ 1076 ≤ (litOf p).exact.2) (hfe : p.frac ≠ [] ∨ p.exp ≠ []) :
+    parseTop env p.bytes = .ok (.num (.float (F64.zero p.minus))) := by
+  obtain ⟨x, hp, hx'⟩ := c08p_underflow_zero env henv hfr hap p hwf hlen hx
+  rcases c08p_outcome env henv hfr hap p hwf with ⟨n, hn, _, hf, he, _⟩ | ⟨k, hk, _, hf, he, _⟩ |
+      ⟨b, hb, _⟩ | ⟨idx, _, hi, _⟩
+  · rcases hfe with h | h
+    · exact absurd hf h
+    · exact absurd he h
+  · rcases hfe with h | h
+    · exact absurd hf h
+    · exact absurd he h
+  · rw [hb] at hp
+    cases hp
+    simp only [numAsF64, Option.some.injEq] at hx'
+    rw [← hx']; exact hb
+  · rw [hi] at hp; cases hp
+
+/-- `6e-325`, `-1e-99999999999`, and `-600000000000000000000001e-348` (five digits dropped) -/
 example : (parseTop envD [0x36, 0x65, 0x2d, 0x33, 0x32, 0x35]).isOk (.num (.float 0)) = true := by
   decide +kernel
 example : (parseTop envD [0x2d, 0x31, 0x65, 0x2d, 0x39, 0x39, 0x39, 0x39, 0x39, 0x39, 0x39, 0x39, 0x39, 0x39,
     0x39]).isOk (.num (.float 0x8000000000000000)) = true := by decide +kernel
-example : partsOfLiteral (litOf ⟨false, [0x36], [], [0x65, 0x2d, 0x33, 0x32, 0x35]⟩) = .parts true 6 (-325) := by
-  decide +kernel
+def exTinyNum : NumParts := ⟨true, [0x36, 0x30, 0x30, 0x30, 0x30, 0x30, 0x30, 0x30, 0x30, 0x30, 0x30, 0x30, 0x30,
+  0x30, 0x30, 0x30, 0x30, 0x30, 0x30, 0x30, 0x30, 0x30, 0x30, 0x31], [], [0x65, 0x2d, 0x33, 0x34, 0x38]⟩
+example : exTinyNum.WF = true ∧ litOf exTinyNum = SJ.Props.C08.exTiny ∧
+    (litOf exTinyNum).digits.length < 2 ^ 30 ∧ (exTinyNum.frac ≠ [] ∨ exTinyNum.exp ≠ []) := by
+  refine ⟨by decide, rfl, by decide, by decide⟩
+example : (parseTop envD exTinyNum.bytes).isOk (.num (.float 0x8000000000000000)) = true := by decide +kernel
 
-/-- **C08, 5 ulp at the parser (partial, as `c08_within_5ulp_partial`).** When the literal ends in
-    `f64_from_parts(_, s, e)` with a table exponent (`|e| ≤ 308`) and — for divisions — `s·10^e ≥ 2^-1021`,
-    the float the parser returns is within 5 ulp of `s·10^e` and carries the literal's sign. Missing, as
-    in C08: `e < -308`, subnormal results, and the lift to the literal's exact value when digits beyond
-    `u64` are dropped. -/
-theorem c08p_within_5ulp_partial (env : Env) (henv : env.tgt = .value) (hfr : env.cfg.fr = false)
-    (hap : env.cfg.ap = false) (p : NumParts) (hwf : p.WF = true) (pos : Bool) (s : Nat) (e : Int)
-    (r : UInt64) (hp : partsOfLiteral (litOf p) = .parts pos s e) (hs1 : 1 ≤ s)
-    (he1 : -308 ≤ e) (he2 : e ≤ 308) (hnorm : e < 0 → 10 ^ e.natAbs ≤ s * 2 ^ 1021)
-    (h : parseTop env p.bytes = .ok (.num (.float r))) :
-    withinUlps 5 p.minus (scale10 s e).1 (scale10 s e).2 r = true := by
-  have hgood := SJ.Proofs.FloatDefault.partsOfLiteral_good (litOf p)
-    (Proofs.NumLinkParser.litOf_wf p hwf)
-  rw [hp] at hgood
-  have hpos : pos = !p.minus := hgood.1
-  obtain ⟨x, hx, hv⟩ := Proofs.NumLinkParser.parseTop_default_ok env henv hfr hap p hwf _ h
+/-- **C08, "within 5 units in the last place", parser level.** Whatever number the parser stores for a
+    number literal, read as `f64` (`Number::as_f64`; an integer literal is stored as the exact integer and
+    cast), is finite, carries the literal's sign and lies within 5 ulp of the literal's exact value — the
+    ulp being that of the correctly rounded exact value (`Spec.Ieee.withinUlps`). Every literal: any number
+    of digits below `2^30`, every exponent, normal and subnormal results. -/
+theorem c08p_within_5ulp (env : Env) (henv : env.tgt = .value) (hfr : env.cfg.fr = false)
+    (hap : env.cfg.ap = false) (p : NumParts) (hwf : p.WF = true)
+    (hlen : (litOf p).digits.length < 2 ^ 30) (x : Num) (r : UInt64)
+    (h : parseTop env p.bytes = .ok (.num x)) (hr : numAsF64 x = some r) :
+    withinUlps 5 p.minus (litOf p).exact.1 (litOf p).exact.2 r = true := by
+  obtain ⟨x', hx', hv⟩ := Proofs.NumLinkParser.parseTop_default_ok env henv hfr hap p hwf _ h
   cases hv
-  unfold numOfLit at hx
-  rw [hp] at hx
-  simp only [Option.map_eq_some_iff, Num.float.injEq, exists_eq_right] at hx
-  have := SJ.Props.C08.c08_within_5ulp_partial pos s e r hs1 hgood.2 he1 he2 hnorm hx
-  rw [hpos, Bool.not_not] at this
-  exact this
+  have hfl : floatOfLiteral (litOf p) = some r := by
+    have := Proofs.NumLink.numOfLit_asF64 (litOf p)
+    rw [hx'] at this
+    rw [← this]; exact hr
+  exact SJ.Props.C08.c08_within_5ulp (litOf p) (Proofs.NumLinkParser.litOf_wf p hwf) hlen r hfl
 
-/-- `12345678901234567890e-300` (20 digits, division by `1e300`) -/
+/-- the float case spelled out -/
+theorem c08p_within_5ulp_float (env : Env) (henv : env.tgt = .value) (hfr : env.cfg.fr = false)
+    (hap : env.cfg.ap = false) (p : NumParts) (hwf : p.WF = true)
+    (hlen : (litOf p).digits.length < 2 ^ 30) (r : UInt64)
+    (h : parseTop env p.bytes = .ok (.num (.float r))) :
+    withinUlps 5 p.minus (litOf p).exact.1 (litOf p).exact.2 r = true :=
+  c08p_within_5ulp env henv hfr hap p hwf hlen (.float r) r h rfl
+
+/-- `12345678901234567890e-300` (20 digits, division by `1e300`) and `12345678901234567890123e-330`
+    (23 digits, three dropped, two divisions, subnormal result) -/
 example : (parseTop envD [0x31, 0x32, 0x33, 0x34, 0x35, 0x36, 0x37, 0x38, 0x39, 0x30, 0x31, 0x32, 0x33, 0x34,
     0x35, 0x36, 0x37, 0x38, 0x39, 0x30, 0x65, 0x2d, 0x33, 0x30, 0x30]).isOk
       (.num (.float 0x059caf4b164e4802)) = true := by decide +kernel
-example : partsOfLiteral (litOf ⟨false, [0x31, 0x32, 0x33, 0x34, 0x35, 0x36, 0x37, 0x38, 0x39, 0x30, 0x31, 0x32,
-    0x33, 0x34, 0x35, 0x36, 0x37, 0x38, 0x39, 0x30], [], [0x65, 0x2d, 0x33, 0x30, 0x30]⟩)
-      = .parts true 12345678901234567890 (-300) := by decide +kernel
+def exSubNum : NumParts := ⟨false, [0x31, 0x32, 0x33, 0x34, 0x35, 0x36, 0x37, 0x38, 0x39, 0x30, 0x31, 0x32, 0x33,
+  0x34, 0x35, 0x36, 0x37, 0x38, 0x39, 0x30, 0x31, 0x32, 0x33], [], [0x65, 0x2d, 0x33, 0x33, 0x30]⟩
+example : exSubNum.WF = true ∧ litOf exSubNum = SJ.Props.C08.exSub ∧
+    (litOf exSubNum).digits.length < 2 ^ 30 := by refine ⟨by decide, rfl, by decide⟩
+example : (parseTop envD exSubNum.bytes).isOk (.num (.float 0x0008e0a3a2bc301f)) = true := by decide +kernel
 
 end SJ.Props.C08Parser
